@@ -40,7 +40,9 @@ THEOREMS = ['C06_indices_first_fastest', 'C06_items_array',
             'C06_dimension_checks_spec', 'C06_degenerate_ranges_developed',
             'C06_square_sides_irrelevant', 'C06_develop_lattice_square',
             'C06_extract_surfaces', 'C06_parse_ranges_spelled',
-            'C06_parse_lattice_option', 'C06_getitem_tuple_last_fastest']
+            'C06_parse_lattice_option', 'C06_getitem_tuple_last_fastest',
+            'C06_parse_fill_kw_array', 'C06_parse_fill_kw_short_and_shapes',
+            'C06_array_entry_transformation_refuted']
 TRUSTED = [
     'hand-written model coq/C06/Model.v (modelled, tied by execution only)',
     'cells, surfaces other than planes and the effect of a transformation on a '
@@ -154,6 +156,42 @@ m3 1001 1
 m11 1001 1
 m12 1001 1
 '''
+
+
+WITNESS_ENTRY_TR = '''1-D lattice, the last array entry carries its own transformation
+1 0 -10 fill=1 imp:n=1
+2 0 10 imp:n=0
+3 3 -1.0 -21 22 u=1 lat=1 fill=-1:1 0:0 0:0 5 5 5(0 1 0) imp:n=1
+11 11 -1.0 -41 u=5 imp:n=1
+12 12 -1.0 41 u=5 imp:n=1
+
+10 so 8
+21 px 1
+22 px -1
+41 so 0.4
+
+m3 1001 1
+m11 1001 1
+m12 1001 1
+'''
+
+
+def witness_entry_tr():
+    '''MCNP: the (0 1 0) in parentheses belongs to the last entry (element
+    +1); elements -1 and 0 keep their filler sphere at their centre.'''
+    conv = impl.convert(WITNESS_ENTRY_TR, [])
+    if not conv.ok or conv.text is None:
+        return None          # rejected: a different behaviour, not this class
+    t4 = impl.T4File(conv.text)
+    centre0 = owners_at(t4, [0.0, 0.0, 0.0])
+    moved0 = owners_at(t4, [0.0, 1.0, 0.0])
+    last = owners_at(t4, [2.0, 1.0, 0.0])
+    if centre0 == ['m11_-1.0'] and moved0 == ['m12_-1.0']:
+        return None
+    return ("'fill=-1:1 0:0 0:0 5 5 5(0 1 0)': the transformation of the last "
+            'array entry is applied to every element: centre (0,0,0) of '
+            f'element 0 lies in {centre0}, its filler sphere is found at '
+            f'(0,1,0): {moved0} (element +1 at (2,1,0): {last})')
 
 
 def owners_at(t4, point):
@@ -604,6 +642,12 @@ def run(res, tier, seed, proofs_ok):
 
     import time
     t0 = time.time()
+    why = witness_entry_tr()
+    if why:
+        res.violation('impl-violation', why,
+                      {'input': {'deck': WITNESS_ENTRY_TR, 'args': []}},
+                      cls='array_entry_transformation', found_input=True)
+
     direct_ties(res, rng, quick)
     t1 = time.time()
     deck_stream(res, rng, quick)
@@ -1065,7 +1109,9 @@ def direct_ties(res, rng, quick):
 
 
 def classify(deck, meta, failure):
-    '''Narrow class of a sweep failure, or None.  C06 has no open class:
+    '''Narrow class of a sweep failure, or None.  The generated decks never
+    carry per-entry transformations, so the open class
+    array_entry_transformation only matches its witness deck;
     lattice_fill_rotation was repaired in /repo a82b50a,
     degenerate_range_rejected in 9b5a8f0.'''
     return None
